@@ -383,7 +383,7 @@ def d9(ctx, prog):
         from .. import normalize
         updn = normalize.normal(prog, upd, skip={'get_template_index', '_get_dimension'})
         tp = [p_ for p_ in upd.params if p_ != 'self'][0]
-        ev = _TplEval(rf, 2, {'self.pooled_covariance_inv': 'cinv', f'{tp}.shape[1]': 'S', 'self.templates': 't', 'self._scores': 'acc'}, {tp: ['x0', 'x1']}, {})
+        ev = _TplEval(rf, 2, {'self.pooled_covariance_inv': 'cinv', f'{tp}.shape[1]': 'S', f'{tp}.shape[0]': 'NT', f'len({tp})': 'NT', 'self.templates': 't', 'self._scores': 'acc'}, {tp: ['x0', 'x1']}, {})
         # one hypothesis: the loop over the candidates runs once
         for lp in ast.walk(updn.node):
             if isinstance(lp, ast.For) and isinstance(lp.iter, ast.Call) and norm(lp.iter.func) == 'range' and lp.iter.args:
